@@ -1118,3 +1118,171 @@ def check_header_name_case(ck, prog, config, clause, roots=('zck_header_cb',)):
           % (bad[0][0].name, bad[0][3][0], bad[0][2]), bad[0][1].file if bad else rf[0].file,
           bad[0][1].line if bad else rf[0].line, config=config)
     return len(seen)
+
+
+# ------------------------------------------------------------------ R6.config-from-arguments
+def check_tool_config_from_args(ck, prog, config, clause, unit='src/zck.c'):
+    """The zck tool decides how the file is chunked from its command line alone.  Every zck_set_ioption() call of its
+    main() - value and controlling conditions, closed over the definitions of the locals they read - depends only on
+    the parsed arguments and constants, never on the input (its size from fstat()/lseek(), what read() returned):
+    otherwise two inputs that share a prefix are chunked differently because of what follows the prefix."""
+    from ..ir import S as _S, walk as _walk, strip as _strip, callee_name as _cn, calls_in as _ci, show as _show
+    from ..program import is_assign_op as _ia
+    mains = [f for f in prog.funcs.values() if f.unit.endswith(unit) and f.name == 'main']
+    ck.require(len(mains) == 1, 'main() of %s not found' % unit)
+    fn = mains[0]
+    INPUT_CALLS = ('fstat', 'stat', 'lstat', 'lseek', 'read', 'pread', 'fread', 'ftell', 'fstat64', 'stat64')
+    # locals tainted by the input: assigned from an input call, or a struct stat object
+    defs = {}
+
+    def kids(s):
+        out = []
+        for attr in ('init', 'body', 'then', 'els'):
+            x = getattr(s, attr)
+            if isinstance(x, _S):
+                out.append(x)
+            elif isinstance(x, list):
+                out += [y for y in x if isinstance(y, _S)]
+        return out
+    sites = []
+
+    def visit(s, conds):
+        if isinstance(s, list):
+            for x in s:
+                visit(x, conds)
+            return
+        if s is None:
+            return
+        exprs = [e for e in (s.e, s.inc if not isinstance(s.inc, (_S, list)) else None) if e is not None]
+        if s.k == 'decl' and s.var is not None:
+            defs.setdefault(s.var.decl, []).append(s.e)
+        for ex in exprs:
+            for n in _walk(ex):
+                if n.k == 'bin' and _ia(n.op):
+                    l = _strip(n.a[0])
+                    if l is not None and l.k == 'var':
+                        defs.setdefault(l.decl, []).append(n.a[1])
+                if n.k == 'call':
+                    if _cn(n) in INPUT_CALLS:
+                        for a in n.a[1:]:
+                            sa = _strip(a)
+                            if sa is not None and sa.k == 'un' and sa.op == '&' and _strip(sa.a[0]).k == 'var':
+                                defs.setdefault(_strip(sa.a[0]).decl, []).append(n)
+                    if _cn(n) == 'zck_set_ioption':
+                        sites.append((n, list(conds)))
+        if s.k == 'if':
+            visit(s.then, conds + [s.e])
+            visit(s.els, conds + [s.e])
+        elif s.k in ('while', 'for', 'do'):
+            for c in kids(s):
+                visit(c, conds + ([s.e] if s.e is not None else []))
+        else:
+            for c in kids(s):
+                visit(c, conds)
+    visit(fn.body, [])
+    ck.require(len(sites) >= 3, 'zck main: zck_set_ioption() calls not found')
+
+    def tainted(e, seen, depth=0):
+        if e is None or depth > 6:
+            return None
+        for n in _walk(e):
+            if n.k == 'call' and _cn(n) in INPUT_CALLS:
+                return '%s()' % _cn(n)
+            if n.k == 'mem':
+                b = _strip(n.a[0]) if n.a else None
+                if b is not None and 'stat' in (b.t or '') and 'struct' in (b.t or ''):
+                    return _show(n)
+            if n.k == 'var' and n.dk == 'VarDecl' and n.decl not in seen:
+                seen.add(n.decl)
+                for d in defs.get(n.decl, []):
+                    t = tainted(d, seen, depth + 1)
+                    if t:
+                        return '%s <- %s' % (n.op, t)
+        return None
+    bad = None
+    for call, conds in sites:
+        for e in list(call.a[2:]) + conds:
+            t = tainted(e, set())
+            if t and bad is None:
+                bad = (call, t)
+    ck.ob(clause, 'R6.config-from-arguments', 'zck main', 'ioptions', bad is None,
+          '%d zck_set_ioption() call(s): value and controlling conditions depend on the command line only' % len(sites)
+          if bad is None else 'zck_set_ioption(%s) depends on the input (%s): how a file is chunked then depends on its '
+          'length or content beyond the chunk, not only on the bytes before a boundary' % (_show(bad[0].a[2])[:40], bad[1]),
+          bad[0].file if bad else fn.file, bad[0].line if bad else fn.line, config=config)
+    return len(sites)
+
+
+# ------------------------------------------------------------------ R6.realloc-keep
+def check_realloc_keep(ck, prog, config, clause):
+    """zrealloc() frees the old block when it fails.  `tmp = zrealloc(obj->field, n)` followed by a return on the NULL
+    edge leaves obj->field pointing at freed memory: whatever releases the object later frees it again, and a retry
+    reads it.  Every exit behind the NULL edge must have reassigned the field (the form `field = zrealloc(field, n)`
+    does so by itself).  Armed only while zrealloc() does free on failure."""
+    from ..ir import calls_in as _ci, callee_name as _cn, strip as _st, const_value as _cv
+    from ..program import all_exprs as _ae
+    from .common import FactRule as _FR, run_rule as _rr, pstr as _ps, atom_cmp as _ac
+    zr = [f for f in prog.lib_funcs() if f.name == 'zrealloc']
+    ck.require(len(zr) == 1, 'zrealloc not found')
+    frees = any(_cn(c) == 'free' for ex in _ae(zr[0]) for c in _ci(ex))
+    if not frees:
+        ck.ob(clause, 'R6.realloc-keep', 'zrealloc', 'keeps-on-failure', True,
+              'zrealloc() does not free the old block on failure: the old pointer stays valid', zr[0].file, zr[0].line,
+              config=config, trivial=True)
+        return 0
+    n = 0
+    for fn in sorted(prog.lib_funcs(), key=lambda f: f.qname):
+        if fn.body is None or fn is zr[0]:
+            continue
+        sites = [c for ex in _ae(fn) for c in _ci(ex) if _cn(c) == 'zrealloc' and len(c.a) > 2 and
+                 _st(c.a[1]) is not None and _st(c.a[1]).k == 'mem']
+        if not sites:
+            continue
+
+        class RK(_FR):
+            name = 'R6.realloc-keep'
+
+            def on_assign(s, c2, lhs, rhs, op, value, ts):
+                if c2.fn is not s.fn:
+                    return ts
+                lp = _ps(lhs)
+                # any store to a field clears what was dangling there
+                ts = frozenset(x for x in ts if not (isinstance(x, tuple) and x[0] in ('dangling', 'ra') and x[-1] == lp))
+                r = _st(rhs) if rhs is not None else None
+                while r is not None and r.k == 'cast' and r.a:
+                    r = _st(r.a[0])
+                if r is not None and r.k == 'call' and _cn(r) == 'zrealloc' and len(r.a) > 2:
+                    old = _st(r.a[1])
+                    if old is not None and old.k == 'mem' and _ps(r.a[1]) != lp and _st(lhs).k == 'var':
+                        ts = ts | frozenset([('ra', _st(lhs).decl, _ps(r.a[1]))])
+                return ts
+
+            def on_edge(s, c2, node, label, refined, ts):
+                if c2.fn is not s.fn:
+                    return ts
+                op, l, r = _ac(node.e, label)
+                sl = _st(l)
+                if sl is not None and sl.k == 'var' and op == '==' and _cv(r) == 0:
+                    for x in list(ts):
+                        if isinstance(x, tuple) and x[0] == 'ra' and x[1] == sl.decl:
+                            ts = ts | frozenset([('dangling', x[2])])
+                return ts
+
+            def on_return(s, c2, node, mask, ts):
+                if c2.fn is not s.fn:
+                    return ts
+                for x in ts:
+                    if isinstance(x, tuple) and x[0] == 'dangling':
+                        s.violate(c2, 'dangling', 'exit behind the failure edge of zrealloc(%s, ...) with %s still holding the '
+                                  'block that zrealloc() has freed: the object is released (or the call retried) with a '
+                                  'dangling pointer - double free / use after free' % (x[1], x[1]), inst=x[1], node=node)
+                return ts
+        r = RK(prog, fn)
+        _rr(prog, fn, r)
+        n += len(sites)
+        ck.ob(clause, 'R6.realloc-keep', fn.name, 'zrealloc(field)', not r.violations,
+              '%d zrealloc() call(s) on a field through a temporary: every exit behind the failure edge has reassigned the '
+              'field' % len(sites) if not r.violations else r.violations[0].msg, fn.file,
+              r.violations[0].node.line if r.violations else fn.line, path=r.violations[0].path if r.violations else None,
+              config=config)
+    return n
